@@ -180,6 +180,12 @@ def _gen_op(rng, tier, wild=True):
                 cr = np.cross(up, look)
                 if np.linalg.norm(cr) > 1e-2 * np.linalg.norm(up) * np.linalg.norm(look) > 0:
                     break
+        if v >= 0.2 and rng.random() < 0.08:
+            # "at any magnitude": the same directions at the far ends of the binary64 range
+            import math
+            ku, kl = [rng.choice([1, -1]) * rng.randint(520, 1020) for _ in range(2)]
+            return {"op": "reorient", "up": [math.ldexp(x, ku) for x in up], "look": [math.ldexp(x, kl) for x in look],
+                    "exp": [ku, kl]}
         return {"op": "reorient", "up": up, "look": look}
     # explicit matrix
     v = rng.random()
@@ -337,7 +343,7 @@ def run_impl(c):
                 r = {"index": int(r), "len_before": before, "len_after": len(ct.transforms)}
             r["factor"] = float(ounce.factor(e["from"], e["to"])) if e["op"] == "convert_units" else None
             _count("op:%s/%s" % (e["op"] + ("+inverse" if e["op"] == "append" and e["r"] is not None else "")
-                                 + ("/projective" if e.get("projective") else "") + ("/non_orthogonal" if e.get("nonorth") else ""),
+                                 + ("/projective" if e.get("projective") else "") + ("/extreme_magnitude" if "exp" in e else "") + ("/non_orthogonal" if e.get("nonorth") else ""),
                                  r.get("raise", "accepted")))
             obs.append(r)
         pairs = [[np.asarray(f, dtype=np.float64).reshape(-1).tolist(), np.asarray(i, dtype=np.float64).reshape(-1).tolist()]
@@ -365,6 +371,9 @@ def coq_op(o, factor=None):
     if k == "rotate_rodrigues":
         return "ORotate (RotVec %s)" % qv(o["r"])
     if k == "reorient":
+        if "exp" in o:  # the Q model runs on the vectors scaled back by exact powers of two (C11_up_look_scale_invariant)
+            ku, kl = o["exp"]
+            return "OReorient %s %s" % (qv([Fr(x) / Fr(2) ** ku for x in o["up"]]), qv([Fr(x) / Fr(2) ** kl for x in o["look"]]))
         return "OReorient %s %s" % (qv(o["up"]), qv(o["look"]))
     if k == "append":
         return "OAppend %s %s" % (_c11._q_m4(o["f"]), "None" if o["r"] is None else "(Some %s)" % _c11._q_m4(o["r"]))
@@ -443,7 +452,9 @@ def expected_outcome(o, factor):
         up, look = np.array(o["up"]), np.array(o["look"])
         if not np.any(up) or not np.any(look):
             return "raise", "ValueError"
-        if np.linalg.norm(np.cross(up, look)) == 0:
+        with np.errstate(all="ignore"):  # extreme magnitudes overflow here; only an exact zero matters
+            exactly_collinear = np.linalg.norm(np.cross(up, look)) == 0
+        if exactly_collinear:
             return "either", None  # collinear: outside the documented domain
         return "ok", None
     if k == "append":
@@ -574,6 +585,11 @@ def oracle(c, o):
             if ob["single_shapes"][j] != [ncol] or any(abs(Fr(a) - Fr(b)) > TOL * mag * pm for a, b in zip(ob["singles"][j], ob["stack"][j])):
                 return "single point and stacked row %d differ" % j
             back = _F(ob["back"][j])
+            projective_sel = any(op_.get("projective") for op_ in sel_ops)
+            nonorth_sel = any(op_.get("nonorth") for op_ in sel_ops)
+            if projective_sel and not nonorth_sel and any(abs(a - b) > TOL * mag * mag * pm for a, b in zip(back, _F(p))):
+                return ("NONAFFINE reverse=True does not give the points back over from_range=%r containing a non-affine explicit "
+                        "step (apply_transform drops w without dividing)" % (r,))
             if not no_round_trip and any(abs(a - b) > TOL * mag * mag * pm for a, b in zip(back, _F(p))):
                 return "reverse does not undo forward on from_range=%r (vector=%r)" % (r, qu["asvec"])
             if qu["asvec"]:
